@@ -171,10 +171,14 @@ class EndpointsEmitter:
         tag_key_to_candidates: dict[str, List[str]] = {}
         for op in operations:
             tags = op.tags or [DEFAULT_TAG]
+            keys_of_op: set[str] = set()
             for tag in tags:
                 key = NameSanitizer.normalize_tag_key(tag)
-                tag_key_to_ops.setdefault(key, []).append(op)
                 tag_key_to_candidates.setdefault(key, []).append(tag)
+                if key in keys_of_op:
+                    continue  # Two spellings of one tag on the same operation: one method, not two
+                keys_of_op.add(key)
+                tag_key_to_ops.setdefault(key, []).append(op)
 
         def tag_score(t: str) -> tuple[bool, int, int, str]:
             import re
